@@ -4,5 +4,7 @@ pub mod doc_model;
 pub mod faulty_store;
 pub mod iota_did;
 pub mod jose_policy;
+pub mod jwk_ref;
 pub mod jws_ref;
 pub mod jws_split;
+pub mod ordered_list;
